@@ -33,6 +33,10 @@ TABLE: List[Entry] = [
     ("R-TRIGGER-JOIN", None, None, {"C01", "C02", "C08", "C13"}),
     # the tightening primitives: a wrong bound gives a wrong optimum / no termination, never an invalid assignment
     # (C04: a bound that does not move strictly past the incumbent lets the same solution be found for ever)
+    ("R-OFFSET-ROUNDTRIP", "decrease_max", "value-strictness", {"C03", "C04"}),
+    ("R-OFFSET-ROUNDTRIP", "increase_min", "value-strictness", {"C03", "C04"}),
+    ("R-OFFSET-ROUNDTRIP", "decrease_max", "cell-bound", {"C03", "C04"}),
+    ("R-OFFSET-ROUNDTRIP", "increase_min", "cell-bound", {"C03", "C04"}),
     ("R-OFFSET-ROUNDTRIP", "decrease_max", None, {"C03", "C13", "C04"}),
     ("R-OFFSET-ROUNDTRIP", "increase_min", None, {"C03", "C13", "C04"}),
     ("R-OFFSET-ROUNDTRIP", "get_solution", None, {"C01", "C03", "C13", "C02"}),
@@ -68,6 +72,17 @@ TABLE: List[Entry] = [
     ("R-PUSH-POP", None, None, {"C02", "C09"}),
     ("R-ANNOUNCE", "backtrack", "replay-row", {"C02", "C07", "C09"}),
     ("R-ANNOUNCE", "backtrack", None, {"C02", "C09"}),
+    # ---- who consults / writes the enabled flags
+    ("R-FLAGS-WRITERS", None, "wake-row", {"C01", "C02", "C07", "C08"}),
+    ("R-FLAGS-WRITERS", None, None, {"C01", "C02", "C03", "C07", "C08", "C09"}),
+    # ---- Problem.init: re-creation / ordering clauses concern reuse and determinism (C15) as well as the encoding (C13); what the caches
+    # contain is an encoding matter only
+    ("R-INIT-COHERENCE", None, "not-reassigned", {"C13", "C15"}),
+    ("R-INIT-COHERENCE", None, "not-fresh", {"C13", "C15"}),
+    ("R-INIT-COHERENCE", None, "accumulates", {"C13", "C15"}),
+    ("R-INIT-COHERENCE", None, "sort-", {"C13", "C15"}),
+    ("R-INIT-COHERENCE", None, "missing", {"C13", "C15"}),
+    ("R-INIT-COHERENCE", None, None, {"C13"}),
     # ---- wake-up primitive ---------------------------------------------------------------------------------
     ("R-WAKEUP", None, None, {"C01", "C02", "C08"}),
     # ---- optimisation loop: which clauses are also termination conditions
